@@ -1,7 +1,7 @@
 """Python ast -> Lean translators; each regenerates one file under lean/Petl/Gen."""
 import importlib
 
-NAMES = ['ladder']
+NAMES = ['ladder', 'sort_wiring']
 
 
 def run_all():
